@@ -452,6 +452,8 @@ def run(ctx):
             for reverse in (False, True):
                 big_jobs.append((layout, bins, reverse, "stride", True))
     part.merge(core.fan_out(ctx, _big_job, big_jobs))
+    from .. import callforms              # pylint: disable=import-outside-toplevel
+    part.merge(callforms.explore("C13"))
     cnt = part.counters
     coverage = {
         "states": cnt.get("states", 0),
@@ -485,6 +487,9 @@ def run(ctx):
 
 
 def replay(case):
+    if case.get("kind") == "callform":
+        from .. import callforms          # pylint: disable=import-outside-toplevel
+        return callforms.replay(case)
     spatial_grid = _lib()
     if case.get("kind") == "conditioning":
         try:
